@@ -4,8 +4,8 @@ CONSTANTS
   Req <- R1
   Nested <- NA
   InspOf <- IA
-  Pool <- NoPool
-  Own = FALSE
+  Pool <- P2
+  Own = TRUE
 CHECK_DEADLOCK FALSE
 INVARIANT RecvMutex
 INVARIANT DispatchedOnce
